@@ -1646,6 +1646,11 @@ class OR(LogicalBinaryOperator, ABC):
     left_evaluated: bool = field(default=False, init=False)
     right_evaluated: bool = field(default=False, init=False)
 
+    def _invert_(self):
+        # De Morgan: not (a or b) == (not a) and (not b); this holds for every form of the disjunction, a negated else-if
+        # whose sides are disjunctions over different variables cannot be negated as a whole.
+        return AND(self.left._invert_(), self.right._invert_())
+
     @lru_cache(maxsize=None)
     def _projection_(self, when_true: Optional[bool] = True) -> HashedIterable[int]:
         """
@@ -1725,10 +1730,6 @@ class Union(OR):
 
         yield from self.evaluate_left(sources)
         yield from self.evaluate_right(sources)
-
-    def _invert_(self):
-        # De Morgan: not (a or b) == (not a) and (not b)
-        return AND(self.left._invert_(), self.right._invert_())
 
 
 @dataclass(eq=False, repr=False)
